@@ -220,7 +220,27 @@ func signLaws(c *tc, r *rng.R, priv, other *keys.PrivateKey, stdPub *ecdsa.Publi
 		c.fail("verify:accepts-other-key", "another key's signature accepted")
 	}
 	run.Obs("other_key_or_message_rejected", 3)
+	// network-bound signing of a hashable item: the signed data are the magic
+	// (4 bytes LE) followed by the item hash
+	var hh hashable
+	copy(hh[:], r.Bytes(32))
+	net := r.Uint32()
+	nd := sha256.Sum256(append(binary.LittleEndian.AppendUint32(nil, net), hh[:]...))
+	hs := priv.SignHashable(net, hh)
+	if !bytes.Equal(hs, priv.SignHash(nd)) {
+		c.fail("sign:SignHashable-differs-from-SignHash-of-network-digest", "")
+	}
+	if !pub.VerifyHashable(hs, net, hh) || !pub.Verify(hs, nd[:]) {
+		c.fail("verify:rejects-own-signature", "VerifyHashable(SignHashable) is false")
+	}
+	if pub.VerifyHashable(hs, net+1, hh) {
+		c.fail("verify:accepts-other-message", "signature accepted for another network magic")
+	}
 }
+
+type hashable util.Uint256
+
+func (h hashable) Hash() util.Uint256 { return util.Uint256(h) }
 
 func keyFamily(run *ev.Run, n int) {
 	curve := elliptic.P256()
